@@ -2,7 +2,9 @@
    [S] ranges over every commutative ring with a kernel e = [ke] satisfying e(a+b) = e a * e b
    (over the complex numbers: e t = exp(-2 pi i t)); alpha, shift over all rationals, shapes and
    offsets over all integers. *)
-From LV Require Import Model.Dft Proofs.DftP.
+From Coq Require Import Reals QArith Qreals Qcanon.
+From Coquelicot Require Import Complex.
+From LV Require Import Lib.Cis Model.Dft Proofs.DftP Proofs.DftInvP.
 
 (* every output sample (u, v) carries the defining sum over input samples, both planes' origins at
    index floor(n/2), times sqrt|alpha_r alpha_c| exactly when unitary *)
@@ -47,3 +49,53 @@ Theorem C01_out_buffer_transparent :
       = dft2_out sq None f ar ac M N shr shc offr offc unitary).
 Proof. exact dft2_out_transparent. Qed.
 Print Assumptions C01_out_buffer_transparent.
+
+(* ---- over the complex numbers: CS is Coquelicot's C with e t = exp(-2 pi i t) = cis (-(2 PI t)).
+   The model's square-root parameter [sq] is any function with (sq q)^2 = q for q >= 0 (e.g. the
+   principal root, see C01_nonvacuous). ---- *)
+
+(* the inverse transform called with the same sampling and the same normalisation flag recovers the
+   input whenever the forward transform covered one full period (alpha = 1/shape, equal shapes) -
+   for BOTH flags (on the repaired code, commit d3fa362) *)
+Theorem C01_idft2_dft2_id :
+  forall (sq : Qc -> C), (forall q : Qc, (0 <= q)%Qc -> Cmult (sq q) (sq q) = RtoC (Q2R q)) ->
+  forall (f : arr CS) (unitary : bool) (x y : Z),
+  0 < nr f -> 0 < nc f -> 0 <= x < nr f -> 0 <= y < nc f ->
+  get (idft2 (S:=CS) sq
+         (dft2 (S:=CS) sq f (/ zq (nr f))%Qc (/ zq (nc f))%Qc (nr f) (nc f) 0%Qc 0%Qc 0 0 unitary)
+         (/ zq (nr f))%Qc (/ zq (nc f))%Qc (nr f) (nc f) 0%Qc 0%Qc unitary) x y
+  = get f x y.
+Proof. exact (fun sq H f un x y Hm Hn Hx Hy => idft2_dft2_id sq f un x y H Hm Hn Hx Hy). Qed.
+Print Assumptions C01_idft2_dft2_id.
+
+(* under the unitary flag the forward transform conserves energy over one full period
+   (any real output shift, any integer input offset): sum |F|^2 = sum |f|^2 ... *)
+Theorem C01_parseval_full_period :
+  forall (sq : Qc -> C), (forall q : Qc, (0 <= q)%Qc -> Cmult (sq q) (sq q) = RtoC (Q2R q)) ->
+  forall (f : arr CS) (shr shc : Qc) (offr offc : Z), 0 < nr f -> 0 < nc f ->
+  @sumZ CS (nr f) (fun u => @sumZ CS (nc f) (fun v => @norm2 CS
+     (get (dft2 (S:=CS) sq f (/ zq (nr f))%Qc (/ zq (nc f))%Qc (nr f) (nc f) shr shc offr offc true) u v)))
+  = @sumZ CS (nr f) (fun x => @sumZ CS (nc f) (fun y => @norm2 CS (get f x y))).
+Proof. exact (fun sq H f shr shc offr offc Hm Hn =>
+                parseval_period sq f (nr f) (nc f) shr shc offr offc H Hm Hn (Z.le_refl _) (Z.le_refl _)). Qed.
+Print Assumptions C01_parseval_full_period.
+
+(* ... and the inverse transform conserves it just as the forward transform does *)
+Theorem C01_parseval_full_period_inverse :
+  forall (sq : Qc -> C), (forall q : Qc, (0 <= q)%Qc -> Cmult (sq q) (sq q) = RtoC (Q2R q)) ->
+  forall (F : arr CS) (shr shc : Qc), 0 < nr F -> 0 < nc F ->
+  @sumZ CS (nr F) (fun x => @sumZ CS (nc F) (fun y => @norm2 CS
+     (get (idft2 (S:=CS) sq F (/ zq (nr F))%Qc (/ zq (nc F))%Qc (nr F) (nc F) shr shc true) x y)))
+  = @sumZ CS (nr F) (fun u => @sumZ CS (nc F) (fun v => @norm2 CS (get F u v))).
+Proof. exact (fun sq H F shr shc Hm Hn =>
+                parseval_period_inv sq F (nr F) (nc F) shr shc H Hm Hn (Z.le_refl _) (Z.le_refl _)). Qed.
+Print Assumptions C01_parseval_full_period_inverse.
+
+(* the hypotheses are satisfiable by a non-trivial instance: the principal square root and a 2x3 array *)
+Example C01_nonvacuous :
+  let sq := fun q : Qc => RtoC (sqrt (Q2R q)) in
+  let f : arr CS := mkArr (S:=CS) 2 3 (fun x y => ((IZR x, IZR (x + 2 * y)) : C)) in
+  (forall q : Qc, (0 <= q)%Qc -> Cmult (sq q) (sq q) = RtoC (Q2R q))
+  /\ 0 < nr f /\ 0 < nc f /\ get f 1 2 <> get f 0 0.
+Proof. cbn. split; [exact sqrt_sq_spec|]. repeat split; try reflexivity.
+  intro E. injection E as E _. apply eq_IZR in E. discriminate. Qed.
